@@ -113,6 +113,7 @@ func ruleR11(c *Ctx, prop string) {
 		c.undecided("R11", "R11:anchor", "", "Conv operator not found")
 		return
 	}
+	c.checkConvBroadcasts(oi)
 	// getSubImage by role: method (tensor, int, ...int) -> (tensor, error)
 	var subImage *ssa.Function
 	var loops []*ssa.Function
@@ -839,4 +840,48 @@ func (c *Ctx) autoPadTable(oi *opInfo) (known, ok bool) {
 		}
 	}
 	return true, true
+}
+
+// checkConvBroadcasts (K10): the window and the kernel slice (and the output and the bias) are paired by the
+// unidirectional helper with the data operand first: its shape is the reference. The multidirectional helper pads
+// a window that lost an axis (gorgonia drops sliced unit extents) on the left and stretches BOTH operands, which
+// turns a geometry the operator does not implement into a sum over channel pairs instead of a refusal.
+func (c *Ctx) checkConvBroadcasts(oi *opInfo) {
+	apply := oi.methods["Apply"]
+	if apply == nil {
+		return
+	}
+	key := "R11:K10:broadcast"
+	bad, site, n := "", c.pos(apply.Pos()), 0
+	for f := range c.reachFrom([]*ssa.Function{apply}) {
+		if !isLibFn(f) || fnPkgPath(f) != pkgOpset13 {
+			continue
+		}
+		if rn := recvNamed(f); rn != nil && rn != oi.named {
+			continue // another operator reached through the call graph's over-approximation
+		}
+		for _, b := range f.Blocks {
+			for _, in := range b.Instrs {
+				cl, ok := in.(*ssa.Call)
+				if !ok {
+					continue
+				}
+				sc := cl.Common().StaticCallee()
+				if sc == nil || fnPkgPath(sc) != pkgOps || sc.Parent() != nil {
+					continue
+				}
+				switch sc.Name() {
+				case "MultidirectionalBroadcast":
+					bad, site = "Conv pairs its operands with the multidirectional broadcast helper: both operands are stretched, a window that lost a unit axis is padded on the left - unsupported geometries are computed differently instead of being refused", c.pos(cl.Pos())
+				case "UnidirectionalBroadcast":
+					n++
+				}
+			}
+		}
+	}
+	if bad == "" && n == 0 {
+		c.note("R11", key, site, "Conv no longer uses the broadcast helpers of package ops")
+		return
+	}
+	c.decide(bad == "", "R11", key, site, fmt.Sprintf("%d pairings, all by the unidirectional helper", n), bad)
 }
